@@ -1,6 +1,7 @@
 package rules
 
 import (
+	"go/types"
 	"go/token"
 	"strings"
 
@@ -69,10 +70,25 @@ func (c *Ctx) EXT(rule string) []report.Obligation {
 	}
 	hid := c.P.FuncID(host)
 	// EXT-1: the base handed to ExtendService is a fresh clone
-	base := stripAssert(ext.Common().Args[0])
+	// which argument ExtendService merges into: the map parameter it writes through (ownership analysis)
+	baseIdx := 0
+	if es := ext.Common().StaticCallee(); es != nil {
+		for i, pa := range es.Params {
+			if _, isMap := pa.Type().Underlying().(*types.Map); !isMap {
+				continue
+			}
+			sum := c.imm().summary(es, i)
+			c.imm().solve()
+			if sum.Writes {
+				baseIdx = i
+				break
+			}
+		}
+	}
+	base := stripAssert(ext.Common().Args[baseIdx])
 	call, isCall := base.(*ssa.Call)
 	fresh := false
-	why := "the first argument of ExtendService is " + c.P.KeyTerm(base, 3)
+	why := "the merged-into argument of ExtendService is " + c.P.KeyTerm(base, 3)
 	if isCall {
 		if cal := call.Call.StaticCallee(); cal != nil && c.P.InModule(cal) {
 			r := c.imm().analyse(cal, 0, true)
@@ -269,8 +285,9 @@ func (c *Ctx) INC(rule string) []report.Obligation {
 				}
 				n++
 				cls := c.dfltClass(f, mu, nil)
-				out = append(out, verdict(strings.HasPrefix(cls, "guarded"), rule+"-1", "importResource :: import only when absent", c.P.InstrPos(in),
-					"the imported resource is stored only on the absent edge of the lookup in the including model", "an included resource overwrites (or is written regardless of) a resource the including model already defines"))
+				// a resource declared with an empty body (`volumes: {data: }`) is a key with a nil value: presence is the comma-ok result, not a nil test
+				out = append(out, verdict(strings.HasPrefix(cls, "guarded: reachable only when the key is absent"), rule+"-1", "importResource :: import only when absent", c.P.InstrPos(in),
+					"the imported resource is stored only on the absent edge of the comma-ok lookup in the including model", "an included resource overwrites a resource the including model already defines: the store is not confined to the key-absent edge of a comma-ok lookup (a nil test treats a resource declared with an empty body as undefined) ["+cls+"]"))
 			}
 		}
 		if n == 0 {
